@@ -116,7 +116,8 @@ def _aggregate_eval(triangle, eval_resolution, eval_origin):
 
 # noinspection PyShadowingNames
 def _aggregate_period(triangle, period_resolution, period_origin, summarize_premium):
-    if period_resolution is None:
+    # nothing to regroup (also when the evaluation grid has removed every cell of the slice)
+    if period_resolution is None or not triangle.cells:
         return triangle
 
     resolution = date_utils.standardize_resolution(period_resolution)
